@@ -33,7 +33,7 @@ RECURSIVE After(_)
 After(s) ==
   LET prev == {c \in Starts : c < s}
       lc0 == IF prev = {} THEN LcAt(NLs, a) ELSE After(CHOOSE c \in prev : \A d \in prev : d <= c)
-  IN Feed(lc0, NLs, s, EndOf(s), flag[s])
+  IN LcFeed(lc0, NLs, s, EndOf(s), flag[s])
 
 CoordOk(s) == LET lc == After(s) IN lc.line = Line(NLs, EndOf(s)) /\ LcCol(lc) = Col(NLs, EndOf(s))
 
